@@ -94,6 +94,9 @@ func genHist(r *rand.Rand, id string, tier string, extremes bool) string {
 	if r.Intn(3) == 0 {
 		c.Fifo = true
 	}
+	if r.Intn(6) == 0 {
+		c.Ppf = 1 + r.Intn(4)
+	}
 	if r.Intn(2) == 0 {
 		c.Opt |= fNeg
 	}
@@ -179,7 +182,11 @@ func genHist(r *rand.Rand, id string, tier string, extremes bool) string {
 				ops = append(ops, "rev")
 			}
 		case 15:
-			switch r.Intn(3) {
+			switch r.Intn(5) {
+			case 3:
+				ops = append(ops, "fifo0") // once on, FIFO mode can never be switched off
+			case 4:
+				ops = append(ops, fmt.Sprintf("ppol %d", r.Intn(5))) // the list semantics hold on the policy path too
 			case 0:
 				ops = append(ops, "fifo")
 			case 1:
@@ -280,6 +287,9 @@ func applyOp(s stackage.Stack, op string) string {
 			return "-"
 		case "fifo":
 			s.SetFIFO(true)
+			return "-"
+		case "fifo0":
+			s.SetFIFO(false)
 			return "-"
 		case "neg":
 			s.SetNegativeIndices(t[1] == "1")
@@ -456,11 +466,13 @@ func genNest(r *rand.Rand, id string, tier string) string {
 	}
 	var ops []string
 	for i, nops := 0, 1+r.Intn(8); i < nops; i++ {
-		switch r.Intn(6) {
+		switch r.Intn(7) {
 		case 0:
 			ops = append(ops, fmt.Sprintf("nnest %d", r.Intn(2)))
 		case 1:
 			ops = append(ops, "pop")
+		case 6:
+			ops = append(ops, fmt.Sprintf("ppol %d", r.Intn(5))) // the option holds on the push-policy path as well
 		default:
 			var vs []string
 			for j, m := 0, r.Intn(5); j < m; j++ {
